@@ -295,6 +295,11 @@ impl StateRestorer {
                     rv_id,
                 } => {
                     log::debug!("Replaying: TaskStarted {task_id} {instance_id} {worker_ids:?}");
+                    // (the WorkerConnected record may have been pruned and, if the server
+                    // crashed while the worker was connected, there is no WorkerLost record)
+                    for worker_id in &worker_ids {
+                        self.max_worker_id = self.max_worker_id.max(worker_id.as_num());
+                    }
                     if let Some(job) = self.jobs.get_mut(&task_id.job_id()) {
                         // The task may have been started before (and crashed)
                         let crash_counter = job
